@@ -198,12 +198,10 @@ func RunBatches(test string, res *Result, n int, par int, timeout time.Duration,
 	sem := make(chan struct{}, par)
 	var wg sync.WaitGroup
 	var mu sync.Mutex
-	for b := 0; b < n; b++ {
-		wg.Add(1)
-		sem <- struct{}{}
-		go func(b int) {
-			defer wg.Done()
-			defer func() { <-sem }()
+	var retry []int
+	var runOne func(b int, last bool)
+	runOne = func(b int, last bool) {
+		{
 			outFile := filepath.Join(OutDir(), fmt.Sprintf("%s.%d.out", res.Check, b))
 			of, _ := os.Create(outFile)
 			cmd := exec.Command(os.Args[0], "-test.run=^"+test+"$", "-test.timeout=0")
@@ -255,15 +253,46 @@ func RunBatches(test string, res *Result, n int, par int, timeout time.Duration,
 				res.Inconc(fmt.Sprintf("batch %d: case watchdog fired; last case: %.300s\n%s", b, curb, tail(out, 1500)))
 				return
 			}
+			if !last && bytes.Contains(out, []byte("cannot allocate memory")) {
+				// the box ran out of memory/address space with all batches running at
+				// once: run this batch again on its own before judging
+				retry = append(retry, b)
+				return
+			}
 			reason := classifyDeath(out)
 			res.Violate(deathSig+":"+reason, fmt.Sprintf("batch %d child died (%v); last case: %.2000s\n--- output tail:\n%s", b, err, curb, tail(out, 3000)),
 				map[string]any{"batch": b, "case": string(curb)})
+		}
+	}
+	for b := 0; b < n; b++ {
+		wg.Add(1)
+		sem <- struct{}{}
+		go func(b int) {
+			defer wg.Done()
+			defer func() { <-sem }()
+			runOne(b, false)
 		}(b)
 	}
 	wg.Wait()
+	for _, b := range retry {
+		res.mu.Lock()
+		res.Extra["batches_retried_alone_after_ENOMEM"] = fmt.Sprint(retry)
+		res.mu.Unlock()
+		runOne(b, true)
+	}
 }
 
 func tail(b []byte, n int) string {
+	// prefer the part starting at the first fatal error / panic line
+	for _, key := range []string{"fatal error:", "panic:", "unexpected fault address", "SIGSEGV", "SIGBUS", "VERIF-WATCHDOG"} {
+		if i := bytes.Index(b, []byte(key)); i >= 0 {
+			b = b[i:]
+			if len(b) > n {
+				b = b[:n]
+			}
+			return string(b)
+		}
+	}
 	if len(b) > n {
 		b = b[len(b)-n:]
 	}
